@@ -110,6 +110,9 @@ type Mutex struct {
 	locked bool
 	vc     []int32
 	init   bool
+	// identity of the last unlock (who, with which history): what a critical section can read from
+	// memory the mutex protects depends on who held it before, so it is part of the locker's history
+	lastPh, lastHist uint64
 }
 
 type transition struct {
@@ -161,6 +164,7 @@ type Sched struct {
 	crash      []string
 	mainDone   bool
 	locs       map[locKey]*locState
+	atoms      map[any]*atomState
 	races      []string
 	raceKeys   map[string]bool
 	leaks      []string
@@ -636,7 +640,7 @@ func (s *Sched) apply(tr transition) {
 		case opLock:
 			ao.mu.locked = true
 			a.vc = join(a.vc, ao.mu.vc)
-			a.hist = mix(a.hist, 5, ao.mu.id)
+			a.hist = mix(a.hist, 5, ao.mu.id, ao.mu.lastPh, ao.mu.lastHist)
 		case opUnlock:
 			if !ao.mu.locked {
 				ao.panicv = "sync: unlock of unlocked mutex"
@@ -644,6 +648,7 @@ func (s *Sched) apply(tr transition) {
 			ao.mu.locked = false
 			ao.mu.vc = cp(a.vc)
 			a.tick()
+			ao.mu.lastPh, ao.mu.lastHist = a.ph, a.hist
 			a.hist = mix(a.hist, 6, ao.mu.id)
 		case opYield:
 			a.hist = mix(a.hist, 7)
@@ -1081,6 +1086,64 @@ func AccessRange(obj any, from, n int) {
 	for i := 0; i < n; i++ {
 		AccessSlot(obj, from+i, false)
 	}
+}
+
+// atomState is the scheduler's view of one atomic variable (sync/atomic in the coop build): the
+// identity of the store it currently holds and the vector clock released by the stores so far.
+type atomState struct {
+	vc       []int32
+	ph, hist uint64
+}
+
+func (s *Sched) atom(addr any) *atomState {
+	if s.atoms == nil {
+		s.atoms = map[any]*atomState{}
+	}
+	a := s.atoms[addr]
+	if a == nil {
+		a = &atomState{}
+		s.atoms[addr] = a
+	}
+	return a
+}
+
+// AtomicRead is the load half of an atomic operation: a scheduling point; the load synchronises with
+// the store it observes (acquire), and the identity of that store enters the reader's history, so that
+// history-key pruning keeps apart executions in which the load saw different stores.
+func AtomicRead(addr any) {
+	s := S
+	if s == nil || s.aborting || s.cur == nil {
+		return
+	}
+	Yield()
+	if s.aborting {
+		return
+	}
+	t := s.cur
+	a := s.atom(addr)
+	t.vc = join(t.vc, a.vc)
+	t.hist = mix(t.hist, 32, a.ph, a.hist)
+}
+
+// AtomicWrite is the store half of an atomic operation (release). point: the store is a scheduling
+// point of its own (plain Store); false for the store half of a read-modify-write.
+func AtomicWrite(addr any, point bool) {
+	s := S
+	if s == nil || s.aborting || s.cur == nil {
+		return
+	}
+	if point {
+		Yield()
+		if s.aborting {
+			return
+		}
+	}
+	t := s.cur
+	a := s.atom(addr)
+	a.vc = join(a.vc, t.vc)
+	a.ph, a.hist = t.ph, t.hist
+	t.tick()
+	t.hist = mix(t.hist, 33)
 }
 
 // YieldOnAccess makes every hooked field access (rule R4) a scheduling point, so that all sequentially
